@@ -25,7 +25,11 @@ type handshake struct {
 	// Expect is the outcome of the fault-free run on a correct library: "ok"
 	// (session Ready, nil error) or "stepfail" (a negotiation step reports an
 	// error, so the constructor must report one).
+	// "refused": the peer refuses or answers wrongly at the protocol level, the
+	// constructor must fail closed.  "free": the outcome is not demanded, only
+	// the fault-free run is made and checked for panics and swallowed errors.
 	Expect string
+	Note   string // what the peer does (refusal shapes)
 	TLS    bool
 	New    func() *attempt
 	// bounds of the enumeration (fixed, so that the case list does not depend
@@ -265,6 +269,7 @@ func scripted() []*handshake {
 		}},
 	}
 	hs = append(hs, stepFailHandshakes()...)
+	hs = append(hs, refusalHandshakes()...)
 	for _, h := range hs {
 		h.MaxBytes, h.MaxOps = scriptedMaxBytes, scriptedMaxOps
 		h.Key, h.Chunk = h.Name, readChunk
